@@ -16,7 +16,7 @@ from fractions import Fraction
 import z3
 
 from .values import *  # noqa: F403
-from .values import (AList, ADict, ASet, CDict, CList, CVal, GList, I, R, B, Mat, Obj, Opaque, RangeV, Ref,
+from .values import (AList, ADict, ASet, CDict, CList, CVal, GList, I, R, B, Mat, MatA, Obj, Opaque, RangeV, Ref,
                      Unsupported, fresh, is_bool, is_int, is_real, is_z3, lift, numeric_join, reset_names,
                      sort_of, to_c, to_int, to_real)
 
@@ -335,6 +335,10 @@ class Executor:
             s = ASet(z3.Array(name + ".dom", I, B), z3.Int(name + ".n"))
             self.pc.append(s.n >= 0)
             return self.alloc(s, prov)
+        if t == "mata":
+            d = z3.Int(name + ".dim")
+            self.pc.append(d >= 0)
+            return self.alloc(MatA(("var", name), d), prov)
         if t.startswith("mat"):
             m = Mat(z3.Int(name + ".nr"), z3.Int(name + ".nc"), z3.Array(name + ".re", I, I, R),
                     z3.Array(name + ".im", I, I, R))
@@ -424,7 +428,7 @@ class Executor:
                 return {"dict"}
             if isinstance(h, ASet):
                 return {"set"}
-            if isinstance(h, Mat):
+            if isinstance(h, (Mat, MatA)):
                 return {"ndarray", "np.ndarray"}
             if isinstance(h, Obj):
                 out = set()
@@ -880,7 +884,7 @@ class Executor:
                 ln = z3.If(n >= 0, n, 0)
                 return self.alloc(AList(ln, z3.K(I, x), es))
             raise Unsupported("list repetition of a non-singleton")
-        if isinstance(l, Ref) and isinstance(self.heap[l.id], Mat) or isinstance(r, Ref) and isinstance(self.heap[r.id], Mat):
+        if (isinstance(l, Ref) and isinstance(self.heap[l.id], (Mat, MatA))) or (isinstance(r, Ref) and isinstance(self.heap[r.id], (Mat, MatA))):
             return self.mat_binop(op, l, r, node)
         if isinstance(l, Ref) and isinstance(self.heap[l.id], Obj):
             name = {ast.Add: "__add__", ast.Sub: "__sub__", ast.Mult: "__mul__"}.get(type(op))
@@ -889,7 +893,23 @@ class Executor:
         raise Unsupported(f"sequence op {type(op).__name__}")
 
     def mat_binop(self, op, l, r, node):
-        raise Unsupported("matrix arithmetic (handled through MatAlg contracts)")
+        """A @ B on abstract matrices: the term mul(a, b); a concrete (entrywise) left operand becomes an opaque term
+        E(label, dim) - the label is the callee it came from (recorded when the contract of that callee was applied)."""
+        if not isinstance(op, ast.MatMult) or not (isinstance(l, Ref) and isinstance(r, Ref)):
+            raise Unsupported("matrix arithmetic other than @")
+        a, b = self.heap[l.id], self.heap[r.id]
+
+        def abstract(ref, h):
+            if isinstance(h, MatA):
+                return h
+            if isinstance(h, Mat):
+                label, arg = getattr(self, "mat_origin", {}).get(ref.id, (f"mat&{ref.id}", h.nr))
+                self.require(h.nr == h.nc, "safe.matmul-square", node)
+                return MatA(("E", label, arg), h.nr)
+            raise Unsupported("@ on non-matrices")
+        a, b = abstract(l, a), abstract(r, b)
+        self.require(a.dim == b.dim, "safe.ValueError-matmul-dimensions", node)
+        return self.alloc(MatA(("mul", a.term, b.term), a.dim))
 
     def concat(self, a, b):
         t = fresh("t")
@@ -1385,9 +1405,9 @@ class Executor:
         rel, cls, fn = m
         callee = self.find_contract(rel, qual, kind) if qual else None
         is_self = (rel == self.rel and fn is self.fn)
-        if callee is not None and (is_self or qual.split(".")[-1] not in self.c.inline):
+        if callee is not None and qual.split(".")[-1] not in self.c.inline:
             return self.apply_contract(callee, fn, args, kwargs, node, qual)
-        if is_self:
+        if is_self and qual.split(".")[-1] not in self.c.inline:
             raise Unsupported("recursion without contract")
         if self.depth > 12:
             raise Unsupported("inline depth")
@@ -1480,6 +1500,10 @@ class Executor:
             res = None
             if callee.result_type:
                 res = self.make(f"ret_{qual}_{next_id()}", callee.result_type, "FRESH")
+                if isinstance(res, Ref) and isinstance(self.heap[res.id], Mat):
+                    # where an entrywise matrix came from: callee and its (first) integer argument, e.g. get_unitary(N)
+                    ints = [v for k_, v in env.items() if k_ != "self" and is_int(v)]
+                    self.__dict__.setdefault("mat_origin", {})[res.id] = (qual, ints[0] if ints else self.heap[res.id].nr)
             extra = {"result": res, "__old_heap__": pre_heap}
             for lab, post in callee.ensures.items():
                 if callee.modular is not None and lab not in callee.modular:
@@ -1596,6 +1620,8 @@ class Executor:
             s = ASet(fresh(name + ".dom", z3.ArraySort(I, B)), fresh(name + ".n"))
             self.pc.append(s.n >= 0)
             return s
+        if isinstance(h, MatA):
+            return MatA(("var", name + f"!{next_id()}"), fresh(name + ".dim"))
         if isinstance(h, Mat):
             return Mat(h.nr, h.nc, fresh(name + ".re", z3.ArraySort(I, I, R)), fresh(name + ".im", z3.ArraySort(I, I, R)))
         if isinstance(h, Obj):
@@ -1713,6 +1739,15 @@ class Executor:
                 self.store(base, Mat(h.nr, h.nc, z3.Store(h.re, i, j, c.re), z3.Store(h.im, i, j, c.im), h.base,
                                      (h.chain + ((i, j, c),)) if h.base is not None else ()), node, "[i,j] =")
                 return
+        if isinstance(h, MatA):
+            # the only store modelled on an abstract matrix: setting the new corner of a freshly padded matrix to one
+            if (isinstance(idx, tuple) and len(idx) == 2 and all(self._concrete_int(x) == -1 for x in idx) and h.term[0] == "pad0"):
+                c = to_c(val)
+                one = z3.simplify(z3.And(c.re == 1, c.im == 0))
+                if z3.is_true(one):
+                    self.store(base, MatA(("pad1", h.term[1]), h.dim), node, "[-1,-1] = 1")
+                    return
+            raise Unsupported("entry store on an abstract matrix")
         if isinstance(h, Obj):
             self.call_method(base, "__setitem__", [idx, val], {}, node)
             return
